@@ -36,6 +36,10 @@ package etcd
 
 // sh_*: the last write handed to the shim (1 create, 2 update, 3 delete), its arguments and its answer
 //@ ghost sh_op Int
+// sh_read: the last read handed to the shim (1 get, 2 list, 3 count, 4 partitions), its request and answer
+//@ ghost sh_read Int
+//@ ghost sh_rreq Ref
+//@ ghost sh_rresp Ref
 //@ ghost sh_put Ref
 //@ ghost sh_key Slice
 //@ ghost sh_val Slice
@@ -74,26 +78,30 @@ package etcd
 //@   assumed
 //@   ensures [response-or-error] err == nil ==> resp != nil
 //@   requires [after-sync] synced
-//@   modifies ghost.shim_reads
+//@   modifies ghost.shim_reads ghost.sh_read ghost.sh_rreq ghost.sh_rresp ghost.sh_err
 //@   ensures [counted] shim_reads == old(shim_reads)+1
+//@   ensures [recorded] sh_read == 1 && sh_rreq == r && sh_rresp == resp && sh_err == err
 //@ func BackendShim.List(ctx, r) (resp, err)
 //@   assumed
 //@   ensures [response-or-error] err == nil ==> resp != nil
 //@   requires [after-sync] synced
-//@   modifies ghost.shim_reads
+//@   modifies ghost.shim_reads ghost.sh_read ghost.sh_rreq ghost.sh_rresp ghost.sh_err
 //@   ensures [counted] shim_reads == old(shim_reads)+1
+//@   ensures [recorded] sh_read == 2 && sh_rreq == r && sh_rresp == resp && sh_err == err
 //@ func BackendShim.Count(ctx, r) (resp, err)
 //@   assumed
 //@   ensures [response-or-error] err == nil ==> resp != nil
 //@   requires [after-sync] synced
-//@   modifies ghost.shim_reads
+//@   modifies ghost.shim_reads ghost.sh_read ghost.sh_rreq ghost.sh_rresp ghost.sh_err
 //@   ensures [counted] shim_reads == old(shim_reads)+1
+//@   ensures [recorded] sh_read == 3 && sh_rreq == r && sh_rresp == resp && sh_err == err
 //@ func BackendShim.GetPartitions(ctx, r) (resp, err)
 //@   assumed
 //@   ensures [response-or-error] err == nil ==> resp != nil
 //@   requires [after-sync] synced
-//@   modifies ghost.shim_reads
+//@   modifies ghost.shim_reads ghost.sh_read ghost.sh_rreq ghost.sh_rresp ghost.sh_err
 //@   ensures [counted] shim_reads == old(shim_reads)+1
+//@   ensures [recorded] sh_read == 4 && sh_rreq == r && sh_rresp == resp && sh_err == err
 
 // ---- the four transaction shapes Kubernetes issues (C16) ----
 // repeated fields decoded from the wire have no nil elements
@@ -168,10 +176,14 @@ package etcd
 //@   ensures [supported-shape-executed-once] leader_checked && (shape_create(txn) || shape_update(txn) || shape_delete_guarded(txn) || shape_delete_unguarded(txn)) && shim_writes == old(shim_writes) ==> false
 
 //@ func (*RPCServer).Range(ctx, r) (resp, err)
-//@   props C18 C20
-//@   nosafety C18
+//@   props C16 C18 C20
+//@   nosafety C16 C18
 //@   requires wf_rpc(s) && r != nil && !synced
-//@   modifies ghost.synced ghost.shim_reads
+//@   modifies ghost.synced ghost.shim_reads ghost.sh_read ghost.sh_rreq ghost.sh_rresp ghost.sh_err
+// which read: no range_end is a point read; otherwise the partition magic revision asks for the
+// partition list, count_only for a count, anything else is a list; the request is passed on as it came
+// and the shim's answer is the handler's answer
+//@   ensures@C16 [the-read-the-request-asks-for] synced ==> sh_rreq == r && asref(sh_rresp, "*etcdserverpb.RangeResponse") == resp && sh_err == err && sh_read == ite(len(r.RangeEnd) == 0, 1, ite(r.Revision == GetPartitionMagic, 4, ite(r.CountOnly, 3, 2)))
 //@   ensures [failed-sync-reads-nothing] !synced ==> shim_reads == old(shim_reads) && err != nil
 //@   ensures [one-read] synced ==> shim_reads == old(shim_reads)+1
 
